@@ -1002,4 +1002,23 @@ example : (List.range 2).map (propEval (α := ℚ) [2] [2] [some (-1)] [some (-1
   simp [propEval, dftInvCodedNd, dftFwdPad, dftAxes, padNd, slab, prodL, sumTo, dftEval.npow, List.range, List.range.loop]
   norm_num
 
+
+/-! ## Round 5 -/
+
+/-- padded propagators (`pad_factor > 1`, transform shape `ms ≥ ns`), statement for the DOCUMENTED operator `F⁻¹ D F` (inverse
+    at the padded shape, then crop): propagation over `z = 0` (`D ≡ 1`) is the identity, any axes subset, every norm. -/
+theorem C04_propagator_padded_documented {F : Type} [Field F] (ns ms : List Nat) (ws : List (Option F)) (s s' : F)
+    (D x : V F) (p : Nat) (hfit : FitsPad ns ms) (hr : RootsOpt ms ws) (hs : s * s' * (dftAxesSize ms ws : F) = 1)
+    (hD : ∀ f, f < prodL ms → D f = 1) (hp : p < prodL ns) :
+    propEvalDoc ns ms ws (ws.map (Option.map (·⁻¹))) s s' D x p = x p :=
+  propDoc_one ns ms ws s s' D x p hfit hr hs hD hp
+
+/-- negation witness for the code as it is (known finding `dft-inv-padded`): the padded propagator `F.inv(D @ F @ x)` with
+    `D ≡ 1` is NOT the identity — input `[[0, 1]]`, padded shape `(1, 4)`: the result at `[0,0]` is `(1 − i)/2`.  The
+    model `propEval` is what the adapter ties to the real padded propagators (matrix of the code as it is). -/
+theorem C04_propagator_padded_fails :
+    propEval [1, 2] [1, 4] [none, some (-Complex.I)] [none, some (-1 : ℂ)] 1 (1 / 2) (fun _ => 1)
+        (fun j => if j = 1 then 1 else 0) 0 ≠ (fun j => if j = 1 then (1 : ℂ) else 0) 0 := by
+  simp [propEval, dftInvCodedNd, dftFwdPad, dftAxes, padNd, slab, prodL, sumTo, dftEval.npow, Complex.ext_iff]
+
 end Scico.Props.C04
